@@ -224,7 +224,7 @@ pub enum POp {
     /// (name index among names interned so far, version set label index)
     VSet(u8, u8),
     Solvable(u8),
-    /// union of the first k interned version sets (k = 2 or 3)
+    /// union of the last k interned version sets (k = 2 or 3); k = 9: three members, the first repeated
     Union(u8),
 }
 
@@ -409,10 +409,12 @@ pub fn p_build(prefill: usize, hist: &[POp]) -> Result<Vec<usize>, (String, Stri
                 r.solvs.push((name, rec));
             }
             POp::Union(k) => {
-                if r.vsets.len() < k as usize {
+                let need = if k == 9 { 2 } else { k as usize };
+                if r.vsets.len() < need {
                     continue;
                 }
-                let members: Vec<u32> = (0..k as u32).map(|i| (r.vsets.len() as u32 - 1 - i)).collect();
+                let last = r.vsets.len() as u32 - 1;
+                let members: Vec<u32> = if k == 9 { vec![last, last - 1, last] } else { (0..k as u32).map(|i| last - i).collect() };
                 let id = pool.intern_version_set_union(VersionSetId(members[0]), members[1..].iter().map(|&m| VersionSetId(m)));
                 if id.0 as usize != r.unions.len() {
                     return Err(("intern-union-id".into(), format!("step {step}: union got id {} (expected unique dense id {})", id.0, r.unions.len())));
@@ -465,7 +467,9 @@ pub fn run_c18(ctx: &Ctx) -> i32 {
     }
     ops.push(POp::Union(2));
     ops.push(POp::Union(3));
-    let prefills: Vec<usize> = vec![0, 126, 127, 128, 255, 256];
+    ops.push(POp::Union(9));
+    // 128 + {3,4,7,8,15,16,..}: a chunk that was not pre-sized would reallocate right after these sizes
+    let prefills: Vec<usize> = vec![0, 126, 127, 128, 131, 132, 135, 136, 143, 144, 159, 160, 191, 192, 255, 256];
     let results: Vec<(Acc, u64, u64)> = std::thread::scope(|sc| {
         let hs: Vec<_> = prefills
             .iter()
@@ -851,6 +855,18 @@ pub fn run_c20(ctx: &Ctx) -> i32 {
             }
             acc.count("cases");
             check_c20(case, depth, (fi, idx, 0), acc);
+            // the same universe with every package answering hints = All (two hinted packages fetched
+            // in either order)
+            let mut hinted = case.clone();
+            for n in hinted.u.names.iter_mut() {
+                if !n.missing {
+                    n.hint = Hint::All;
+                }
+            }
+            if hinted.u != case.u {
+                acc.count("cases");
+                check_c20(&hinted, depth, (fi, idx, 1), acc);
+            }
         });
         states += acc.get("cases");
         transitions += acc.get("call_sequences");
